@@ -4,6 +4,7 @@ import json
 
 import core
 import scen_log
+import scen_proc
 
 PROPS = ['Props/C20.lean', 'Legacy/LogPipe.lean']
 
@@ -28,6 +29,7 @@ def run(chk):
     chk.audit(PROPS)
     cases = build_cases(chk)
     results = chk.run_cases('scen_log', cases, sched=False, per_case_timeout=200.0)
+    results = scen_proc.recheck_hangs(chk, 'scen_log', results, scen_log.vol_class)
     chk.account(scen_log, results, 'E4-processes')
     chk.collect_monitors(results, {'C20'}, keyfn)
     chk.validate('logpipe', scen_log, results)
